@@ -26,23 +26,23 @@ import (
 // Anchors. Exported API only: Datasource (fields BaseURL, and the one field of "waiter" interface type),
 // DefaultDatasource, the constant BaseURL, the exported endpoint methods and wrappers, (*Datasource).NotFound, the
 // option constructors At/Limit/MaxDaysClosed and the option interfaces *Option, osm.OSM/osm.Change. Unexported
-// functions are found by role: the request function is the one Datasource method with the signature
-// func(context.Context, string, interface{}) error; base-URL methods are Datasource methods func() string;
+// functions are found by role: the request function is the one function or method whose inputs (receiver included) are
+// a *Datasource, a context.Context, a string and an interface{} in any order and whose result is an error; base-URL methods are Datasource methods func() string;
 // option-joining functions are func([]XOption) (string, error); everything else is reached through calls.
 
 func init() {
 	register(&core.Property{
 		ID:    "C20",
 		Title: "osmapi calls hit the documented endpoint and map statuses to typed errors",
-		Explanation: "Structural necessary conditions decided on /repo/osmapi (non-test files) against the external table tables/api06.json (API v0.6 paths) by symbolic execution: every function is run with symbolic inputs, package functions inlined, each undecided branch explored under both assumptions; the rules read the outcomes, so helper extraction/inlining, branch form, local names, named constants and statement order do not matter. " +
+		Explanation: "Structural necessary conditions decided on /repo/osmapi (non-test files) against the external table tables/api06.json (API v0.6 paths) by symbolic execution: every function is run with symbolic inputs, package functions inlined, each undecided branch explored under both assumptions; the rules read the outcomes, so helper extraction/inlining (including helpers taking function literals, which are executed in place when called), method vs function form, grouped parameters, branch form (if/switch/type switch), local names, named constants and statement order do not matter. " +
 			"(H1) on every path of every exported *Datasource endpoint method that returns a nil error exactly one request (call of the request function getFromAPI) was made, on every other path at most one, none in a loop; HTTP requests are created/sent only in getFromAPI and helpers only it calls, which performs Client.Do exactly once before decoding, tests Do's error and returns it; every package-level wrapper performs exactly `DefaultDatasource.<same name>(<its parameters in order>)` and returns its results. " +
 			"(H2) every path reaching Client.Do has tested the limiter field against nil and, when it is non-nil, called Wait(ctx) on it before and found its error nil; when Wait fails that error is returned and no request is sent. " +
 			"(H3) executing getFromAPI for every status 100..599, every path with a successful Do ends in exactly the typed error of the table (404, 403, 410, 414, other non-200, the latter recording the status) and in the XML decode of the response body into the item parameter only for 200; NotFound, executed for nil, a foreign error and every error type of the package, is true exactly for the 404 type; the request is a GET created by http.NewRequest; on every endpoint path the request's error is tested and, when non-nil, returned unchanged. " +
 			"(H4) the URL argument of the request, evaluated symbolically on every path (constant format strings, concatenation, option and id-list loops summarised, each hole bound to a method parameter) and merged over the paths (configured vs default base URL, options given or not), equals the table entry; base-URL methods return the configured BaseURL exactly when non-empty, else the default; getFromAPI requests its URL parameter unchanged, without body. " +
 			"(H5) every path returning a nil error returns the table's field of the fresh empty document that was the decode target; element [0] is returned only on paths whose passed tests imply len == 1. " +
 			"(H6) At/Limit/MaxDaysClosed construct an option holding the argument whose apply method appends exactly `at=` (UTC, layout 2006-01-02T15:04:05Z), `limit=` (appended exactly for 1..10000) and `closed=`; option-joining functions join with `&` and return option errors. " +
-			"NOT decided: that encoding/xml returns the server's elements unmodified; URL escaping beyond the presence of QueryEscape on the search query; precision of %f for bounding boxes (6 decimals); that the http.Client follows the request unchanged (redirects, transport); trailing `?`/`&` when no option is given (accepted by the table); the text of error messages and the URL recorded in the typed errors; code shapes outside the executor's model (goroutines, closures, labelled jumps, general loops, writes through pointers or to fields) are reported as undecided, not accepted.",
-		Assumptions: []string{"go/types (x/tools v0.29.0)", "tables/api06.json transcribes the OSM API v0.6 documentation", "fmt verbs %d/%f/%s/%v, strings.Join, strconv.AppendInt/FormatInt/Itoa, url.QueryEscape, time.Time.UTC/Format, append/len/make behave as documented", "net/http sends the request it is given; encoding/xml decodes faithfully", "every option appends a non-empty key=value string (H6), so `options given` and `option string non-empty` coincide", "function values, interface calls other than the option apply methods and the limiter, and library calls that are not modelled yield unknown values; they cannot alter locals of the analysed function"},
+			"NOT decided: that encoding/xml returns the server's elements unmodified; URL escaping beyond the presence of QueryEscape on the search query; precision of %f for bounding boxes (6 decimals); that the http.Client follows the request unchanged (redirects, transport); trailing `?`/`&` when no option is given (accepted by the table); the text of error messages and the URL recorded in the typed errors; code shapes outside the executor's model (goroutines, function literals that escape to code that is not inlined, method values, labelled jumps, general loops, pointer-declared or shared strings.Builder/bytes.Buffer, url.Values, writes through pointers or to fields) are reported as undecided, not accepted.",
+		Assumptions: []string{"go/types (x/tools v0.29.0)", "tables/api06.json transcribes the OSM API v0.6 documentation", "fmt.Sprintf/Sprint/Fprintf verbs %d/%f/%s/%v, strings.Join, strings.Builder/bytes.Buffer writes, strconv.AppendInt/FormatInt/Itoa, url.QueryEscape, time.Time.UTC/Format, append/len/make behave as documented", "errors of the package do not wrap other errors (errors.As is modelled as the type test of its target)", "net/http sends the request it is given; encoding/xml decodes faithfully", "every option appends a non-empty key=value string (H6), so `options given` and `option string non-empty` coincide", "function values, interface calls other than the option apply methods and the limiter, and library calls that are not modelled yield unknown values; they cannot alter locals of the analysed function"},
 		LevelText:   "Structural necessary conditions of the request/response contract, decided for every endpoint method, every wrapper, every status value 100..599 and every path of getFromAPI by symbolic execution with helpers inlined: one request per call, limiter before the request, status-to-error table, URL shape equal to the external API v0.6 table with parameter-to-position binding, single-element guards, option encodings. Fidelity of the XML decode and of net/http is not decided.",
 		LevelNote:   "Trusts the Go type checker, the model of the symbolic executor (c20_sx*.go), the documented behaviour of fmt/strings/strconv/net/url/time used in URL building, and the transcription of the API v0.6 documentation in tables/api06.json.",
 		Technique:   "forward symbolic execution of the package's functions (inlined calls, path forking with recorded assumptions, loop summaries for option and id loops, modelled fmt/strings/strconv/net/url/time/net/http/encoding/xml calls) + finite-domain execution of getFromAPI per status and of NotFound per error type + merging of per-path URLs against an external path table",
@@ -93,6 +93,147 @@ func init() {
 			{Name: "way-single-guard-allows-many", File: "osmapi/way.go", Find: "if l := len(o.Ways); l != 1 {", Replace: "if l := len(o.Ways); l < 1 {", ExpectRule: "H5", ExpectConstruct: "single@(*Datasource).Way"},
 			{Name: "relations-csv-separator-unguarded", File: "osmapi/relation.go", Find: "\t\tif i != 0 {\n\t\t\tdata = append(data, byte(','))\n\t\t}\n", Replace: "\t\t_ = i\n\t\tdata = append(data, byte(','))\n", ExpectRule: "H4", ExpectConstruct: "path@(*Datasource).Relations"},
 			{Name: "changeset-helper-swallows-request-error", File: "osmapi/changeset.go", Find: "\tif err := ds.getFromAPI(ctx, url, &css); err != nil {\n\t\treturn nil, err\n\t}\n", Replace: "\tif err := ds.getFromAPI(ctx, url, &css); err != nil {\n\t\treturn nil, fmt.Errorf(\"changeset: %v\", err)\n\t}\n", ExpectRule: "H3", ExpectConstruct: "propagate@(*Datasource).ChangesetWithDiscussion"},
+			{Name: "closure-helper-always-first-id", File: "osmapi/relation.go",
+				Find: `	data := make([]byte, 0, 11*len(ids))
+	for i, id := range ids {
+		if i != 0 {
+			data = append(data, byte(','))
+		}
+		data = strconv.AppendInt(data, int64(id), 10)
+	}
+	url := ds.baseURL() + "/relations?relations=" + string(data)
+	if len(params) > 0 {
+		url += "&" + params
+	}
+
+	o := &osm.OSM{}
+	if err := ds.getFromAPI(ctx, url, &o); err != nil {
+		return nil, err
+	}
+
+	return o.Relations, nil
+}
+`,
+				Replace: `	idList := joinInt64(len(ids), func(i int) int64 { return int64(ids[0]) })
+	url := ds.baseURL() + "/relations?relations=" + idList
+	if len(params) > 0 {
+		url += "&" + params
+	}
+
+	o := &osm.OSM{}
+	if err := ds.getFromAPI(ctx, url, &o); err != nil {
+		return nil, err
+	}
+
+	return o.Relations, nil
+}
+
+// joinInt64 formats the n numbers at(0..n-1) in base 10, comma separated.
+func joinInt64(n int, at func(i int) int64) string {
+	out := make([]byte, 0, 11*n)
+	for i := 0; i < n; i++ {
+		if i > 0 {
+			out = append(out, ',')
+		}
+		out = strconv.AppendInt(out, at(i), 10)
+	}
+	return string(out)
+}
+`, ExpectRule: "H4", ExpectConstruct: "path@(*Datasource).Relations"},
+			{Name: "closure-helper-separator-guard-off-by-one", File: "osmapi/relation.go",
+				Find: `	data := make([]byte, 0, 11*len(ids))
+	for i, id := range ids {
+		if i != 0 {
+			data = append(data, byte(','))
+		}
+		data = strconv.AppendInt(data, int64(id), 10)
+	}
+	url := ds.baseURL() + "/relations?relations=" + string(data)
+	if len(params) > 0 {
+		url += "&" + params
+	}
+
+	o := &osm.OSM{}
+	if err := ds.getFromAPI(ctx, url, &o); err != nil {
+		return nil, err
+	}
+
+	return o.Relations, nil
+}
+`,
+				Replace: `	idList := joinInt64(len(ids), func(i int) int64 { return int64(ids[i]) })
+	url := ds.baseURL() + "/relations?relations=" + idList
+	if len(params) > 0 {
+		url += "&" + params
+	}
+
+	o := &osm.OSM{}
+	if err := ds.getFromAPI(ctx, url, &o); err != nil {
+		return nil, err
+	}
+
+	return o.Relations, nil
+}
+
+// joinInt64 formats the n numbers at(0..n-1) in base 10, comma separated.
+func joinInt64(n int, at func(i int) int64) string {
+	out := make([]byte, 0, 11*n)
+	for i := 0; i < n; i++ {
+		if i > 1 {
+			out = append(out, ',')
+		}
+		out = strconv.AppendInt(out, at(i), 10)
+	}
+	return string(out)
+}
+`, ExpectRule: "H4", ExpectConstruct: "path@(*Datasource).Relations"},
+			{Name: "closure-helper-semicolon", File: "osmapi/relation.go",
+				Find: `	data := make([]byte, 0, 11*len(ids))
+	for i, id := range ids {
+		if i != 0 {
+			data = append(data, byte(','))
+		}
+		data = strconv.AppendInt(data, int64(id), 10)
+	}
+	url := ds.baseURL() + "/relations?relations=" + string(data)
+	if len(params) > 0 {
+		url += "&" + params
+	}
+
+	o := &osm.OSM{}
+	if err := ds.getFromAPI(ctx, url, &o); err != nil {
+		return nil, err
+	}
+
+	return o.Relations, nil
+}
+`,
+				Replace: `	idList := joinInt64(len(ids), func(i int) int64 { return int64(ids[i]) })
+	url := ds.baseURL() + "/relations?relations=" + idList
+	if len(params) > 0 {
+		url += "&" + params
+	}
+
+	o := &osm.OSM{}
+	if err := ds.getFromAPI(ctx, url, &o); err != nil {
+		return nil, err
+	}
+
+	return o.Relations, nil
+}
+
+// joinInt64 formats the n numbers at(0..n-1) in base 10, comma separated.
+func joinInt64(n int, at func(i int) int64) string {
+	out := make([]byte, 0, 11*n)
+	for i := 0; i < n; i++ {
+		if i > 0 {
+			out = append(out, ';')
+		}
+		out = strconv.AppendInt(out, at(i), 10)
+	}
+	return string(out)
+}
+`, ExpectRule: "H4", ExpectConstruct: "path@(*Datasource).Relations"},
 			{Name: "featureoptions-join-comma", File: "osmapi/options.go", Find: "strings.Join(params, \"&\")", Replace: "strings.Join(params, \",\")", ExpectRule: "H6", ExpectConstruct: "join@featureOptions"},
 		},
 	})
@@ -185,6 +326,7 @@ type c20Ctx struct {
 	info    *types.Info
 	dsType  string // pkgpath.Datasource
 	getFn   *FuncInfo
+	get     c20GetRoles // positions of datasource, context, URL and decode target in getFn's inputs
 	funcs   []*FuncInfo
 	byObj   map[*types.Func]*FuncInfo
 	reqFns  map[*types.Func]bool // functions that (transitively) perform a request, including getFromAPI
@@ -210,7 +352,7 @@ func c20NewCtx(r *core.R) *c20Ctx {
 	}
 	cx.getFn = c20FindGet(cx)
 	if cx.getFn == nil || cx.getFn.Decl.Body == nil {
-		r.Anchor("the request method of Datasource: exactly one method func(context.Context, string, interface{}) error (getFromAPI)")
+		r.Anchor("the request function: exactly one function or method taking a *Datasource, a context.Context, a string and an interface{} and returning error (getFromAPI)")
 		return nil
 	}
 	cx.reqFns[cx.getFn.Obj] = true
